@@ -375,7 +375,8 @@ func InnerText(node *html.Node) string {
 				return
 			}
 
-			if !IsProbablyVisible(n) {
+			// Scripts and styles have no visible text, whatever their inline style says.
+			if n.Data == "script" || n.Data == "style" || !IsProbablyVisible(n) {
 				return
 			}
 		}
